@@ -436,7 +436,7 @@ def check_case(case, ctx):
     kw = resolve(case["kw"], "live")
     sps = spellings_of(rec, args, kw)
     if fn in ("full", "zeros", "ones"):
-        sps = ["numpoly"]  # numpy.full/zeros/ones dispatch only through like=
+        sps = ["numpoly", "like"]  # numpy.full/zeros/ones dispatch only through like=
     outcomes = {}
     for sp in sps:
         try:
